@@ -12,7 +12,7 @@ from statemachine.contrib.diagram import DotGraphMachine
 from statemachine.exceptions import InvalidDefinition, TransitionNotAllowed
 
 from .. import gen
-from ..core import Boom, HarnessError, render
+from ..core import Boom, HarnessError, dec, render
 from ..scenario import dispose, outcome
 from .c10 import values_for
 
@@ -144,7 +144,13 @@ def run_case(case):
                     return None
             return send
 
-        sm, _ = r.make(allow=True, Hh=Hh)
+        kw = {}
+        if case.get("start") is not None:
+            # an instance that resumes in a given state: the diagram of the machine is the same, only the active state differs
+            s0 = spec["states"][case["start"]]
+            kw["start_value"] = dec(s0["value"]) if "value" in s0 else s0["id"]
+            labels.add("start_value")
+        sm, _ = r.make(allow=True, Hh=Hh, **kw)
         if "late0" in Hh.objs:
             sm.add_listener(Hh.objs["late0"])  # a listener attached later, possibly exposing guard names too
             labels.add("late-listener")
@@ -229,6 +235,8 @@ def cases(draw, tier):
     case = {"spec": spec, "history": hist, "val": {g: draw(st.booleans()) for g in gids}, "vals": vals, "dot": tier == "thorough" and draw(st.integers(0, 9)) == 0}
     if draw(st.integers(0, 3)) == 0:
         case["shadow"] = draw(gen.machine_spec(max_states=4, providers=("machine",), async_mode="none", sends=False))
+    if draw(st.integers(0, 3)) == 0:
+        case["start"] = draw(st.integers(0, n - 1))
     return case
 
 
